@@ -181,11 +181,26 @@ def apply(tree, idx, opname):
 
 
 def sh(cmd, cwd=None, timeout=1800, env=None):
+    # own process group, killed as a whole on timeout: a mutant that loops forever inside a pytest-xdist
+    # worker must not survive the run (such orphans once kept the machine at load 100 for hours)
+    import signal
+
+    p = subprocess.Popen(cmd, shell=True, cwd=cwd, stdout=subprocess.PIPE, stderr=subprocess.STDOUT, text=True, env=env, start_new_session=True)
     try:
-        p = subprocess.run(cmd, shell=True, cwd=cwd, stdout=subprocess.PIPE, stderr=subprocess.STDOUT, text=True, timeout=timeout, env=env)
-        return p.returncode, p.stdout
-    except subprocess.TimeoutExpired as e:
-        return 124, (e.stdout or "") if isinstance(e.stdout, str) else ""
+        out, _ = p.communicate(timeout=timeout)
+        return p.returncode, out
+    except subprocess.TimeoutExpired:
+        try:
+            os.killpg(p.pid, signal.SIGKILL)
+        except OSError:
+            pass
+        out, _ = p.communicate()
+        return 124, out or ""
+    finally:
+        try:
+            os.killpg(p.pid, signal.SIGKILL)  # stragglers of a finished command (xdist workers of a killed pytest)
+        except OSError:
+            pass
 
 
 _W = {}
